@@ -702,19 +702,26 @@ def suite_states(rng, tier):
     for slots in (1, 2):
         for name, pkt in rejects.items():
             for prior in (False, True):
-                s = Session("st-reject-%d-%s-%d" % (slots, name, prior))
-                s.strict = False
-                s.dec_new(slots, 16, None)
-                for _ in range(3):
+                for nsto in (3, 0):
+                    s = Session("st-reject-%d-%s-%d-%d" % (slots, name, prior, nsto))
+                    s.strict = False
+                    s.dec_new(slots, 16, None)
+                    for _ in range(nsto + (1 if prior else 0)):
+                        s.prov(16, 0)
+                    if prior:
+                        s.decap("h:c00a0800616263646566beef")     # a complete packet: the receiver remembers a label
+                        if nsto:
+                            s.prov(16, 0)
+                    for _ in range(3):
+                        s.decap(pkt)
+                    # a re-use packet straight after: it may be resolved against the label of the packet just
+                    # handled (accepted or refused, it is the nearest preceding start/complete packet), never
+                    # against the label remembered before it
                     s.prov(16, 0)
-                if prior:
-                    s.decap("h:c00a0800616263646566beef")     # a complete packet: the receiver remembers a label
-                    s.prov(16, 0)
-                for _ in range(3):
-                    s.decap(pkt)
-                for _ in range(4):
-                    s.dec_newpdu()
-                out.append(s)
+                    s.decap("h:f0050800aabbcc")
+                    for _ in range(4):
+                        s.dec_newpdu()
+                    out.append(s)
     for r in range(30 if tier == "quick" else 300):
         s = Session("st-refill%d" % r)
         slots = rng.choice([1, 2, 3])
